@@ -307,7 +307,7 @@ class Check:
             canaries = 1
             if not ok:
                 sub.vacuity.append(f'{obs[0].name}: hypotheses unsatisfiable (vacuous)')
-        timeout = 10000 if self.tier == 'quick' else 60000
+        timeout = 20000 if self.tier == 'quick' else 60000
         recs = []
         for ob in obs:
             # refutation hint: a model of hyps ∧ ¬goal ∧ hint is a genuine counter-model of the obligation (the hint
